@@ -193,9 +193,12 @@ def partial_window(case, v=None):
 
 
 def has_weighted_uncrossed(case, v=None):
+    """some weighted basic factor is not in EVERY crossing: its copies are distinct solutions that print alike
+    (Level documentation)"""
     sp = _spec(case)
-    crossed = set(n for c in S.tree_crossings(sp["block"]) for n in c)
-    return any(f["kind"] == "basic" and n not in crossed and any(w > 1 for _, w in f["levels"])
+    crossings = [c for c in S.tree_crossings(sp["block"]) if c]
+    return any(f["kind"] == "basic" and any(w > 1 for _, w in f["levels"]) and
+               not (crossings and all(n in c for c in crossings))
                for n, f in sp["factors"].items() if n in S.tree_design(sp["block"]))
 
 
